@@ -4,6 +4,7 @@ package harness
 // `fn` with `argc` arguments to a registry exposing a zoo root; the outcome is classified.
 
 import (
+	"sync"
 	"context"
 	"encoding/json"
 	"errors"
@@ -327,10 +328,189 @@ func RunMutatingGraph() []MutCase {
 	call("after replacing the last sub-object", "Tenant.Backend.Who", `"third"/`)
 	root.Direct = &MutBackend{"d-second"}
 	call("after replacing a direct sub-object", "Direct.Who", `"d-second"/`)
+	// frames that name no function at all, after valid requests on the same link: nothing of an earlier
+	// request may be reused, no application code runs (the link answers with an error or ends)
+	raw := func(step, frame string) {
+		reqIn <- json.RawMessage(frame)
+		mc := MutCase{Mut: true, Step: step, Fn: frame, Expect: "NO-APPLICATION-CODE"}
+		select {
+		case r := <-resp:
+			mc.Outcome = r
+		case err := <-linkDone:
+			mc.Outcome = "link ended: " + errText(err)
+			linkDone <- err
+		case <-time.After(3 * time.Second):
+			mc.Outcome = "hang"
+		}
+		mc.Hits = zooTake()
+		if len(mc.Hits) == 0 && mc.Outcome != "hang" {
+			mc.Outcome = "NO-APPLICATION-CODE"
+		}
+		out = append(out, mc)
+	}
+	raw("a request without a function name after a valid request", `{"call":"n1","args":[]}`)
 	cancel()
 	select {
 	case <-linkDone:
 	case <-time.After(3 * time.Second):
 	}
+	out = append(out, runNoFunctionHistory(`{"call":"n2","function":null,"args":[]}`, "a request whose function name is null after a valid request")...)
+	out = append(out, runNoFunctionHistory(`{"call":"n3","function":"","args":[]}`, "a request whose function name is empty after a valid request")...)
+	out = append(out, runClosureEntryNames()...)
 	return out
+}
+
+type cbRemote struct {
+	Do func(ctx context.Context, cb func(ctx context.Context, x int) (int, error)) (int, error)
+}
+
+// while a call that passes a function is in flight, the peer names the built-in closure entry point in other
+// spellings: only the exact name is the extra callable
+func runClosureEntryNames() []MutCase {
+	ctx, cancel := context.WithCancel(context.Background())
+	defer cancel()
+	reg := rpc.NewRegistry[cbRemote, json.RawMessage](struct{}{}, nil)
+	reqIn := make(chan json.RawMessage, 1)
+	resIn := make(chan json.RawMessage, 1)
+	reqOut := make(chan json.RawMessage, 4)
+	resp := make(chan string, 4)
+	linkDone := make(chan error, 1)
+	get := func(ch chan json.RawMessage) func() (json.RawMessage, error) {
+		return func() (json.RawMessage, error) {
+			select {
+			case b := <-ch:
+				return b, nil
+			case <-ctx.Done():
+				return nil, ctx.Err()
+			}
+		}
+	}
+	go func() {
+		linkDone <- reg.LinkMessage(ctx,
+			func(b json.RawMessage) error { reqOut <- b; return nil },
+			func(b json.RawMessage) error { resp <- string(b); return nil },
+			get(reqIn), get(resIn),
+			func(v any) (json.RawMessage, error) { b, err := json.Marshal(v); return b, err },
+			func(d json.RawMessage, v any) error { return json.Unmarshal(d, v) },
+			nil)
+	}()
+	var remote cbRemote
+	got := false
+	for dl := time.Now().Add(2 * time.Second); time.Now().Before(dl) && !got; time.Sleep(200 * time.Microsecond) {
+		reg.ForRemotes(func(id string, r cbRemote) error { remote, got = r, true; return nil })
+	}
+	var out []MutCase
+	if !got {
+		return []MutCase{{Mut: true, Step: "closure entry point names", Fn: "-", Expect: "NO-APPLICATION-CODE", Outcome: "no remote"}}
+	}
+	var mu sync.Mutex
+	ran := 0
+	callDone := make(chan struct{})
+	go func() {
+		defer close(callDone)
+		remote.Do(ctx, func(ctx context.Context, x int) (int, error) { mu.Lock(); ran++; mu.Unlock(); return x + 1, nil })
+	}()
+	var req struct {
+		Call string            `json:"call"`
+		Args []json.RawMessage `json:"args"`
+	}
+	select {
+	case b := <-reqOut:
+		json.Unmarshal(b, &req)
+	case <-time.After(3 * time.Second):
+		return []MutCase{{Mut: true, Step: "closure entry point names", Fn: "-", Expect: "NO-APPLICATION-CODE", Outcome: "no request written"}}
+	}
+	if len(req.Args) == 0 {
+		return out
+	}
+	id := string(req.Args[0])
+	for k, name := range []string{"callclosure", "CALLCLOSURE", "Callclosure", "callClosure", "CallClosure "} {
+		if len(out) > 0 && strings.HasPrefix(out[len(out)-1].Outcome, "link ended") {
+			break // the link has (legitimately) ended on the previous name
+		}
+		mu.Lock()
+		before := ran
+		mu.Unlock()
+		reqIn <- json.RawMessage(fmt.Sprintf(`{"call":"q%d","function":%q,"args":[%s,[5]]}`, k, name, id))
+		mc := MutCase{Mut: true, Step: "while a call passing a function is in flight", Fn: name, Expect: "NO-APPLICATION-CODE"}
+		select {
+		case r := <-resp:
+			mc.Outcome = r
+		case err := <-linkDone:
+			mc.Outcome = "link ended: " + errText(err)
+			linkDone <- err
+		case <-time.After(3 * time.Second):
+			mc.Outcome = "hang"
+		}
+		mu.Lock()
+		if ran != before {
+			mc.Hits = []string{fmt.Sprintf("the caller's function (ran %d time(s))", ran-before)}
+		} else if mc.Outcome != "hang" {
+			mc.Outcome = "NO-APPLICATION-CODE"
+		}
+		mu.Unlock()
+		out = append(out, mc)
+	}
+	cancel()
+	select {
+	case <-callDone:
+	case <-time.After(3 * time.Second):
+	}
+	return out
+}
+
+// one valid request, then one frame that names no function, on a fresh link
+func runNoFunctionHistory(frame, step string) []MutCase {
+	zooTake()
+	root := &MutRoot{Tenant: &MutTenant{Backend: &MutBackend{"first"}}, Direct: &MutBackend{"d-first"}}
+	ctx, cancel := context.WithCancel(context.Background())
+	defer cancel()
+	reg := rpc.NewRegistry[struct{}, json.RawMessage](root, nil)
+	reqIn := make(chan json.RawMessage, 1)
+	resp := make(chan string, 4)
+	linkDone := make(chan error, 1)
+	go func() {
+		linkDone <- reg.LinkMessage(ctx,
+			func(b json.RawMessage) error { return nil },
+			func(b json.RawMessage) error { resp <- string(b); return nil },
+			func() (json.RawMessage, error) {
+				select {
+				case b := <-reqIn:
+					return b, nil
+				case <-ctx.Done():
+					return nil, ctx.Err()
+				}
+			},
+			func() (json.RawMessage, error) { <-ctx.Done(); return nil, ctx.Err() },
+			func(v any) (json.RawMessage, error) { b, err := json.Marshal(v); return b, err },
+			func(d json.RawMessage, v any) error { return json.Unmarshal(d, v) },
+			nil)
+	}()
+	reqIn <- json.RawMessage(`{"call":"v1","function":"Direct.Who","args":[]}`)
+	select {
+	case <-resp:
+	case <-time.After(3 * time.Second):
+	}
+	zooTake()
+	reqIn <- json.RawMessage(frame)
+	mc := MutCase{Mut: true, Step: step, Fn: frame, Expect: "NO-APPLICATION-CODE"}
+	select {
+	case r := <-resp:
+		mc.Outcome = r
+	case err := <-linkDone:
+		mc.Outcome = "link ended: " + errText(err)
+		linkDone <- err
+	case <-time.After(3 * time.Second):
+		mc.Outcome = "hang"
+	}
+	mc.Hits = zooTake()
+	if len(mc.Hits) == 0 && mc.Outcome != "hang" {
+		mc.Outcome = "NO-APPLICATION-CODE"
+	}
+	cancel()
+	select {
+	case <-linkDone:
+	case <-time.After(3 * time.Second):
+	}
+	return []MutCase{mc}
 }
